@@ -1,7 +1,7 @@
 """C05 - errors in match components are handled exactly as the error policy says.
 
 Fault injection: each member carries one erroring component that raises on
-exactly a planted line set (seven error kinds: exception in _decide_match, in
+exactly a planted line set (eight error kinds: exception in _decide_match, in
 _produce_value, argument-type mismatch, a function's own rule, a Python
 arithmetic exception, an error on the right of '->', an error inside not()).
 Configuration: every subset of {raise, collect, stop, fail, print, quiet}
@@ -15,12 +15,12 @@ from .. import seams, ops, extfuncs, world as W
 from .common import Out, with_, REAL_ALL, STUB_ALL
 
 ID = "C05"
-TIERS = {"quick": {"n": 13440, "chunk": 168}, "thorough": {"n": 430080, "chunk": 448, "wall_cap": 3300}}
+TIERS = {"quick": {"n": 15360, "chunk": 192}, "thorough": {"n": 491520, "chunk": 512, "wall_cap": 3300}}
 FLAGS = ["raise", "collect", "stop", "fail", "print", "quiet"]
-KINDS = ["exc_match", "exc_value", "arg_type", "rule", "py_exc", "nested_when", "nested_not"]
-DATA_DRIVEN = {"arg_type", "rule", "py_exc", "nested_when"}
+KINDS = ["exc_match", "exc_value", "arg_type", "rule", "py_exc", "nested_when", "nested_not", "arg_match"]
+DATA_DRIVEN = {"arg_type", "rule", "py_exc", "nested_when", "arg_match"}
 RULE = (
-    "scenario i takes policy subset (i mod 64) and error kind ((i div 64) mod 7), so each of the 448 cells is visited n/448 times per batch; within a cell the planted line set (first/last scanned line, header record, "
+    "scenario i takes policy subset (i mod 64) and error kind ((i div 64) mod 8), so each of the 512 cells is visited n/448 times per batch; within a cell the planted line set (first/last scanned line, header record, "
     "after a blank, adjacent pairs, several lines), scan window, blank records, standalone vs managed (7 run forms), group size 1-2 and a validation-mode override on one member are random. "
     "Non-trivial = at least one planted line was evaluated; distinct = (policy, kind, mode/method, position classes of the planted lines, override)."
 )
@@ -33,7 +33,9 @@ ASSUMPTIONS = [
 REAL = REAL_ALL
 STUB = STUB_ALL
 
-OVERRIDES = ["raise", "no-raise", "stop", "no-stop", "fail", "no-fail", "print", "no-print", "match"]
+OVERRIDES = ["raise", "no-raise", "stop", "no-stop", "fail", "no-fail", "print", "no-print", "match", "no-match", "stop,match", "fail,no-print", "no-stop,no-fail", "raise,no-print", "no-raise,stop,fail"]
+# components of the template always vote 'match' on a clean line, except not(simfault()) which votes no
+CLEAN_LINE_MATCHES = {"arg_match": True, "exc_match": True, "exc_value": True, "arg_type": True, "rule": True, "py_exc": True, "nested_when": True, "nested_not": False}
 
 
 def provoker(kind, j):
@@ -45,6 +47,7 @@ def provoker(kind, j):
         "py_exc": f"@t = mod(#n{j}, #z{j})",
         "nested_when": f"yes() -> @x = add(#n{j}, 1)",
         "nested_not": 'not(simfault("s"))',
+        "arg_match": f"between(#n{j}, 0, 99)",  # a function in match position: evaluated through matches(), not to_value()
     }[kind]
 
 
@@ -105,13 +108,20 @@ def generate(rng, i, tier):
                 F = {rng.choice(cand)}
         planted.append(sorted(F))
     override = None
-    if managed and rng.random() < 0.35:
-        override = {"member": rng.randrange(k), "value": rng.choice(OVERRIDES)}
-    elif not managed and rng.random() < 0.15:
-        override = {"member": 0, "value": rng.choice(OVERRIDES)}
+    if rng.random() < (0.5 if managed else 0.35):
+        # the match/no-match overrides interact with every other flag: give them a third of the weight
+        val = rng.choice(["match", "no-match", "stop,match", "no-match,fail"]) if rng.random() < 0.35 else rng.choice(OVERRIDES)
+        override = {"member": rng.randrange(k), "value": val}
+    tail = None
+    if cand and rng.random() < 0.3:
+        # a stop() or skip() later on some line: errors already raised on that line must still be handled
+        allF = sorted({l for F in planted for l in F})
+        tl = rng.choice(allF) if (allF and rng.random() < 0.7) else rng.choice(cand)
+        tail = {"kind": rng.choice(["stop", "skip"]), "line": tl}
     return {
         "seed": rng.getrandbits(32),
         "policy": pol,
+        "tail": tail,
         "kind": kind,
         "nrec": nrec,
         "blanks": blanks,
@@ -134,6 +144,8 @@ def reductions(sc):
             yield c
     if sc["override"]:
         yield with_(sc, override=None)
+    if sc.get("tail"):
+        yield with_(sc, tail=None)
     for j, F in enumerate(sc["planted"]):
         for l in F:
             c = with_(sc)
@@ -171,10 +183,12 @@ def scanned(sc):
 def effective(policy, override):
     P = {f: (f in policy) for f in ("raise", "collect", "stop", "fail", "print")}
     match = False
-    if override:
-        v = override
+    for v in (override.split(",") if override else []):
+        v = v.strip()
         if v == "match":
             match = True
+        elif v == "no-match":
+            match = False
         elif v.startswith("no-"):
             P[v[3:]] = False
         else:
@@ -217,6 +231,9 @@ def model(sc):
             if P["raise"]:
                 e["raised"] = True
                 aborted = True
+        t = sc.get("tail")
+        if t and t["line"] == l and t["kind"] == "stop":
+            e["stopped"] = True
 
     byline = sc["managed"] and sc["method"] in ops.BYLINE
     if byline:
@@ -261,7 +278,7 @@ def build_rows(sc):
         for j in range(k):
             bad = l in sc["planted"][j]
             kind = sc["kind"]
-            n = "zz" if bad and kind in ("arg_type", "nested_when") else str((l * 7 + j) % 9 + 1)
+            n = "zz" if bad and kind in ("arg_type", "nested_when", "arg_match") else str((l * 7 + j) % 9 + 1)
             wv = "nope" if bad and kind == "rule" else "2024"
             z = "0" if bad and kind == "py_exc" else "3"
             r += [n, wv, z]
@@ -274,7 +291,9 @@ def member_text(sc, j, file=""):
     head = f"id:m{j}"
     if ov and ov["member"] == j:
         head += f" validation-mode:{ov['value']}"
-    return f'~{head}~ ${file}[{sc["scan"]}][ push("pre", line_number()) {provoker(sc["kind"], j)} push("post", line_number()) ]'
+    t = sc.get("tail")
+    tail = f" line_number() == {t['line']} -> {t['kind']}()" if t else ""
+    return f'~{head}~ ${file}[{sc["scan"]}][ push("pre", line_number()) {provoker(sc["kind"], j)}{tail} push("post", line_number()) ]'
 
 
 def execute(sc):
@@ -335,7 +354,7 @@ def execute(sc):
             how = sc["method"]
         for kind_, ident, l, site in extfuncs.FaultState.fired:
             out.fault(kind_)
-        where = f"policy {sc['policy']} kind {sc['kind']} {how}" + (f" override m{sc['override']['member']}:{sc['override']['value']}" if sc["override"] else "")
+        where = f"policy {sc['policy']} kind {sc['kind']} {how}" + (f" tail {sc['tail']['kind']}@{sc['tail']['line']}" if sc.get("tail") else "") + (f" override m{sc['override']['member']}:{sc['override']['value']}" if sc["override"] else "")
         # exception reaches the caller iff raise
         if raised is not None and not ops.in_repo(raised) and not isinstance(raised, Exception):
             raise raised
@@ -381,17 +400,32 @@ def execute(sc):
                 out.v("fail_semantics", f"{mw}: is_valid={cp.is_valid}, expected {e['valid']}", **facts)
             if bool(g["printed"]) != e["printed"]:
                 out.v("print_semantics", f"{mw}: printers received {g['printed']!r:.200}, expected {'some' if e['printed'] else 'no'} output", **facts)
-            if g["lines"] is not None and not e["match"]:
+            if g["lines"] is not None:
                 ret = [int(l[0][1:]) if l and l[0].startswith("r") else 0 for l in g["lines"]]
-                leaked = [l for l in ret if l in bad and l in e["evaluated"]]
-                if leaked:
-                    out.v("offending_line_matched", f"{mw}: offending lines {leaked} were returned as matches", **facts)
+                if not e["match"]:
+                    leaked = [l for l in ret if l in bad and l in e["evaluated"]]
+                    if leaked:
+                        out.v("offending_line_matched", f"{mw}: offending lines {leaked} were returned as matches", **facts)
+                # lines on which nothing raised are untouched by the error machinery
+                t = sc.get("tail")
+                tl = t["line"] if t else None
+                # (a 'cond -> stop()/skip()' tail votes no on every line where cond is false, so with a tail no clean line matches)
+                want_clean = [l for l in e["evaluated"] if l not in bad and l != tl] if (CLEAN_LINE_MATCHES[sc["kind"]] and not t) else []
+                got_clean = [l for l in ret if l not in bad and l != tl]
+                if got_clean != want_clean:
+                    out.v(
+                        "clean_line_affected",
+                        f"{mw}: lines on which no component raised were returned as {got_clean}, expected {want_clean} (an error on another line must not change them)",
+                        missing=bool(set(want_clean) - set(got_clean)),
+                        **facts,
+                    )
         pos = []
         S = scanned(sc)
         for F in sc["planted"]:
             for l in F:
                 pos.append("first" if S and l == S[0] else "last" if S and l == S[-1] else "after_blank" if (l - 1) in sc["blanks"] else "mid")
-        out.sig = [sc["policy"], sc["kind"], how, sorted(set(pos)), facts["override"], len(sc["planted"])]
+        out.sig = [sc["policy"], sc["kind"], how, sorted(set(pos)), facts["override"], len(sc["planted"]), sc["tail"]["kind"] if sc.get("tail") else None]
+        out.probe("stop()/skip() later on an offending line", bool(sc.get("tail")) and any(sc["tail"]["line"] in F for F in sc["planted"]))
         out.nontrivial = evaluated_any
         out.probe("offending line is the last scanned line", "last" in pos)
         out.probe("offending line right after a blank record", "after_blank" in pos)
